@@ -606,11 +606,20 @@ func replySeq(r *rng, n int, base int, timeout time.Duration) error {
 // the upstream makes the handlers of a batch rendezvous and releases them together so
 // their replies are written concurrently.
 func replyConc(r *rng, n int, base int) error {
-	w, err := newWorld(base, 64, 1500*time.Millisecond)
+	// one wildcard (dual-stack) listener, as on a router: the same sockets serve several local addresses, and
+	// every reply has to leave from the address its query was sent to (clients use connected sockets, which
+	// drop a datagram from any other source)
+	w, err := newWorldAddrs([]string{fmt.Sprintf(":%d", base)}, 64, 1500*time.Millisecond)
 	if err != nil {
 		return err
 	}
 	defer w.stop()
+	locals := []string{"127.0.0.1", "127.0.0.2", "127.0.0.3"}
+	if c, err := net.DialTimeout("tcp", fmt.Sprintf("[::1]:%d", base), 200*time.Millisecond); err == nil {
+		c.Close()
+		locals = append(locals, "[::1]")
+	}
+	dst := func() string { return fmt.Sprintf("%s:%d", locals[r.intn(len(locals))], base) }
 	type item struct {
 		c    replyCase
 		name string
@@ -722,6 +731,14 @@ func replyConc(r *rng, n int, base int) error {
 		}
 		tres := make([]tcpRes, ntcp)
 		ures := make([][][]byte, nudp)
+		tdst := make([]string, ntcp)
+		for i := range tdst {
+			tdst[i] = dst()
+		}
+		udst := make([]string, nudp)
+		for i := range udst {
+			udst[i] = dst()
+		}
 		for i, its := range tcpItems {
 			wg.Add(1)
 			go func(i int, its []item) {
@@ -730,7 +747,7 @@ func replyConc(r *rng, n int, base int) error {
 				for _, it := range its {
 					raw = append(raw, frame(it.c.q)...)
 				}
-				st, cl := tcpExchange(w.addr, raw, len(its), 3*time.Second, 30*time.Millisecond)
+				st, cl := tcpExchange(tdst[i], raw, len(its), 3*time.Second, 30*time.Millisecond)
 				tres[i] = tcpRes{st, cl}
 			}(i, its)
 		}
@@ -738,7 +755,7 @@ func replyConc(r *rng, n int, base int) error {
 			wg.Add(1)
 			go func(i int, it item) {
 				defer wg.Done()
-				ures[i] = udpExchange(w.addr, it.c.q, 3*time.Second, 30*time.Millisecond)
+				ures[i] = udpExchange(udst[i], it.c.q, 3*time.Second, 30*time.Millisecond)
 			}(i, it)
 		}
 		wg.Wait()
